@@ -150,10 +150,12 @@ static void interfere(void) {   /* any number of other children of the node fini
     if (g_mine) { long o = nondet_long(); __CPROVER_assume(o >= 0 && o <= g_others); g_others = o; N[g_at].m_ref_count = (int)(o + 1); }
 }
 #define ACCESS(x) __CPROVER_assert(&(x) == &N[g_at].m_ref_count && (g_mine || g_excl), "C06.fold: a node is touched only by a thread that still holds a counted reference to it, or whose decrement was the last (otherwise the node may already be freed)")
-#define ATOMIC_LOAD_AT(site, x) ({ ACCESS(x); interfere(); (x); })
-#define ATOMIC_PREDEC_AT(site, x) ({ ACCESS(x); interfere(); __CPROVER_assert(g_mine, "C06.fold: each finishing child decrements its parent's count exactly once"); int r_ = --(x); g_mine = false; g_excl = (g_others == 0); \
+/* the word operated on is N[g_at].m_ref_count - ACCESS has just checked that this is the very word the code names; going through N[g_at] keeps CBMC from dereferencing a loop-havocked pointer */
+#define W (N[g_at].m_ref_count)
+#define ATOMIC_LOAD_AT(site, x) ({ ACCESS(x); interfere(); W; })
+#define ATOMIC_PREDEC_AT(site, x) ({ ACCESS(x); interfere(); __CPROVER_assert(g_mine, "C06.fold: each finishing child decrements its parent's count exactly once"); int r_ = --W; g_mine = false; g_excl = (g_others == 0); \
     __CPROVER_assert(INV_AT, "guarantee: m_ref_count equals the number of unfinished children, at " #site); r_; })
-#define ATOMIC_FETCH_SUB_AT(site, x, v) ({ ACCESS(x); interfere(); __CPROVER_assert(g_mine, "C06.fold: each finishing child decrements its parent's count exactly once"); int o_ = (x); (x) -= (v); g_mine = false; g_excl = (g_others == 0); \
+#define ATOMIC_FETCH_SUB_AT(site, x, v) ({ ACCESS(x); interfere(); __CPROVER_assert(g_mine, "C06.fold: each finishing child decrements its parent's count exactly once"); int o_ = W; W -= (v); g_mine = false; g_excl = (g_others == 0); \
     __CPROVER_assert(INV_AT, "guarantee: m_ref_count equals the number of unfinished children, at " #site); o_; })
 static node *node_parent(node *n) { __CPROVER_assert(n == &N[g_at] && (g_mine || g_excl), "C06.fold: the parent link is read from a node this thread may still touch"); return g_at == g_depth ? NULL : &N[g_at + 1]; }
 #define NODE_PARENT(n) node_parent(n)
@@ -178,7 +180,7 @@ static void STUB_wait_release(wait_node *w) {
     g_released++;
 }
 #define LOOP_fold_1 __CPROVER_assigns(n, g_at, g_mine, g_excl, g_joined, g_others, g_join_k, g_free_k, __CPROVER_object_whole(N)) \
-    __CPROVER_loop_invariant(g_at <= g_depth && n == &N[g_at] && g_mine && !g_excl && !g_joined && g_released == 0 && INV_AT \
+    __CPROVER_loop_invariant(g_start <= g_at && g_at <= g_depth && n == &N[g_at] && g_mine && !g_excl && !g_joined && g_released == 0 && INV_AT \
         && g_join_k == ((g_k >= g_start && g_k < g_at) ? 1 : 0) && g_free_k == g_join_k) \
     __CPROVER_decreases(g_depth - g_at)
 #include "fold.inc"
@@ -199,3 +201,391 @@ void h_fold(void) {
     VACUITY_END();
 }
 #endif /* FOLD */
+
+#if defined(REDUCE) || defined(DETRED)
+/* ---- vocabulary shared by the start_reduce / start_deterministic_reduce sections (types and callee stubs; the functions themselves come from reduce.inc / detred.inc) ---- */
+typedef struct Range { size_t id; } Range;                 /* opaque: identity only; copying and splitting are callee stubs (blocked_range splitting: C05) */
+typedef struct Body { int id; } Body;                      /* opaque user body */
+typedef struct small_object_allocator { void *pool; } small_object_allocator;
+typedef struct split_type { int d; } split_type; typedef unsigned char depth_t; typedef unsigned short slot_id;
+typedef struct Partition { int divisor; } Partition; typedef struct Partitioner { int d; } Partitioner;
+typedef struct task_group_context { int traits; bool cancelled; } task_group_context;
+typedef struct execution_data { task_group_context *context; } execution_data;
+typedef struct wait_context { int refs; } wait_context;
+typedef struct task task;
+/* node, tree_node, wait_node and the two reduction tree nodes as one C struct (base-class part first) */
+typedef struct node { struct node *my_parent; int m_ref_count; small_object_allocator m_allocator; bool m_child_stolen; wait_context m_wait;
+                      Body zombie; Body *left_body; bool has_right_zombie; Body right_body; } node;
+typedef node tree_node_type; typedef node wait_node; typedef node tree_node;
+#define ZOMBIE_BEGIN(n) (&(n)->zombie)
+static split_type g_split_tag;
+#define SPLIT_TAG g_split_tag
+#define PARALLEL_REDUCE 7
+#define ALLOCATOR_INIT(a) ((a).pool = NULL)
+#define INIT_my_parent_1(s, e) ((s)->my_parent = (e))
+#define INIT_m_ref_count_1(s, e) ((s)->m_ref_count = (e))
+#define INIT_node_2(s, p, r) node_ctor((s), (p), (r))
+#define INIT_m_allocator_1(s, a) ((s)->m_allocator = (a))
+#define INIT_m_child_stolen_1(s, e) ((s)->m_child_stolen = (e))
+#define INIT_m_wait_1(s, e) ((s)->m_wait.refs = (e))
+#define INIT_tree_node_3(s, p, r, a) tree_node_ctor((s), (p), (r), &(a))
+#define INIT_left_body_1(s, b) ((s)->left_body = &(b))              /* reference member bound to b */
+#define INIT_has_right_zombie_1(s, e) ((s)->has_right_zombie = (e))
+#define INIT_right_body_2(s, b, tag) Body_split_ctor(&(s)->right_body, &(b))
+#define INIT_my_range_1(s, r) Range_copy_ctor(&(s)->my_range, &(r))
+#define INIT_my_range_2(s, r, so) Range_split_ctor(&(s)->my_range, &(r), (so))
+#define INIT_my_partition_1(s, p) Partition_ctor(&(s)->my_partition, &(p))
+#define INIT_my_partition_2(s, p, so) Partition_split_ctor(&(s)->my_partition, &(p), &(so))
+#define INIT_my_allocator_1(s, a) ((s)->my_allocator = (a))
+#define INIT_is_right_child_1(s, e) ((s)->is_right_child = (e))
+#define STUB_get_range_split_object(so) (&(so))
+int g_rcopies, g_rsplits, g_bsplits, g_bjoins, g_psplits; Range *g_rsplit_dst, *g_rsplit_src, *g_rcopy_dst; const Range *g_rcopy_src; Body *g_bsplit_dst, *g_bsplit_src, *g_bjoin_dst, *g_bjoin_src; void *g_rsplit_obj;
+static void Range_copy_ctor(Range *dst, const Range *src) { g_rcopies++; g_rcopy_dst = dst; g_rcopy_src = src; dst->id = src->id; }
+static void Range_split_ctor(Range *dst, Range *src, void *so) { g_rsplits++; g_rsplit_dst = dst; g_rsplit_src = src; g_rsplit_obj = so; dst->id = nondet_size_t(); src->id = nondet_size_t(); }   /* Range(r, split): *dst = the right part, *src shrinks to the left part */
+static bool range_empty_(const Range *r) { return r->id == 0; }
+#define Range_empty(r) range_empty_(&(r))
+static Body *Body_split_ctor(Body *place, Body *src) { g_bsplits++; g_bsplit_dst = place; g_bsplit_src = src; place->id = nondet_int(); return place; }   /* Body(src, split()) constructed at place */
+static void Body_join(Body *dst, Body *src) { g_bjoins++; g_bjoin_dst = dst; g_bjoin_src = src; }                                                        /* dst.join(src) */
+static void Partition_ctor(Partition *dst, Partitioner *p) { dst->divisor = nondet_int(); }
+static void Partition_split_ctor(Partition *dst, Partition *src, split_type *so) { g_psplits++; dst->divisor = nondet_int(); src->divisor = nondet_int(); }
+static void Partition_align_depth(Partition *p, depth_t d) { }
+static void Partition_note_affinity(Partition *p, slot_id s) { }
+static bool STUB_is_same_affinity(execution_data *ed) { return nondet_bool(); }
+static slot_id STUB_execution_slot(execution_data *ed) { return nondet_ushort(); }
+static task_group_context *STUB_context(execution_data *ed) { return ed->context; }
+static bool STUB_is_cancelled(task_group_context *c) { return c->cancelled; }
+#define CONTEXT_CTOR(c, traits_) ((c).traits = (traits_), (c).cancelled = false)
+void node_ctor(struct node *self, struct node *parent, int ref_count);
+void tree_node_ctor(struct node *self, struct node *parent, int ref_count, small_object_allocator *alloc);
+void wait_node_ctor(struct node *self);
+#define WAIT_NODE_CTOR(w) wait_node_ctor(&(w))
+#endif
+
+#ifdef REDUCE
+/* parallel_reduce.h: struct start_reduce and reduction_tree_node.  The lazy body split in execute() is a rely/guarantee argument on the parent's m_ref_count:
+   while this right child has not finished the count is 2 until the whole left subtree has folded, then 1, and it never goes back (fold_tree only decrements). */
+struct start_reduce { Range my_range; Body *my_body; node *my_parent; Partition my_partition; small_object_allocator my_allocator; bool is_right_child; };
+#define INIT_my_body_1(s, e) ((s)->my_body = (e))
+static struct start_reduce g_new_task; static node g_new_node; int g_task_allocs, g_node_allocs;
+static struct start_reduce *alloc_task(small_object_allocator *a) { g_task_allocs++; return &g_new_task; }
+static node *alloc_node(small_object_allocator *a) { g_node_allocs++; return &g_new_node; }
+void start_reduce_ctor_root(struct start_reduce *self, const Range *range, Body *body, Partitioner *partitioner, small_object_allocator *alloc);
+void start_reduce_ctor_split(struct start_reduce *self, struct start_reduce *parent_, split_type *split_obj, small_object_allocator *alloc);
+void start_reduce_ctor_demand(struct start_reduce *self, struct start_reduce *parent_, const Range *r, depth_t d, small_object_allocator *alloc);
+void reduction_tree_node_ctor(struct node *self, struct node *parent, int ref_count, Body *input_left_body, small_object_allocator *alloc);
+#define NEW_start_reduce_root(a, r, b, p, a2) ({ struct start_reduce *t_ = alloc_task(&(a)); start_reduce_ctor_root(t_, &(r), &(b), &(p), &(a2)); t_; })
+#define NEW_start_reduce_split(a, ed, par, so, a2) ({ struct start_reduce *t_ = alloc_task(&(a)); start_reduce_ctor_split(t_, &(par), &(so), &(a2)); t_; })
+#define NEW_start_reduce_demand(a, ed, par, r, d, a2) ({ struct start_reduce *t_ = alloc_task(&(a)); start_reduce_ctor_demand(t_, &(par), &(r), (d), &(a2)); t_; })
+#define NEW_tree_node(a, ed, parent, rc, lb, a2) ({ node *n_ = alloc_node(&(a)); reduction_tree_node_ctor(n_, (parent), (rc), &(lb), &(a2)); n_; })
+/* ghost state of the scenario */
+static struct start_reduce T; static node P, P2; static Body LB, OB; static Range g_r; static Body g_body; static Partitioner g_partitioner; static task_group_context g_ctx;
+bool g_is_right0, g_left_done, g_left_done_when_read; int g_loads, g_pexec, g_dtor, g_folds, g_deallocs, g_spawns, g_waits, g_run4s; Body *g_body0, *g_body_used; node *g_parent_at_exit; void *g_pool0; bool g_zombie_flag0;
+/* rely: the left sibling's subtree may fold at any moment: 2 -> 1, once */
+static void interfere(void) { if (g_is_right0 && !g_left_done && nondet_bool()) { g_left_done = true; P.m_ref_count = 1; } }
+#define ATOMIC_LOAD_AT(site, x) ({ interfere(); __CPROVER_assert(&(x) == &P.m_ref_count, "C06.lazy_split: the count consulted is the parent's"); g_loads++; g_left_done_when_read = g_left_done; (x); })
+static bool Partition_check_being_stolen(Partition *p, struct start_reduce *t, execution_data *ed) { return nondet_bool(); }
+static void Partition_execute(Partition *p, struct start_reduce *t, Range *r, execution_data *ed) {
+    interfere();
+    OBLIGATION(t == &T && r == &T.my_range && p == &T.my_partition, "C06.execute: the partitioner works on this task and this task's own range");
+    g_pexec++; g_body_used = T.my_body;                       /* run_body() applies *my_body to pieces of my_range */
+    if (g_is_right0) {
+        if (g_body_used == &LB) OBLIGATION(g_loads >= 1 && g_left_done_when_read,
+            "C06.lazy_split: a right child keeps accumulating into the left sibling's body only if the whole left subtree had already finished when the parent's count was read (count no longer 2); otherwise two tasks would update one body at once and operands could be folded out of order");
+        else OBLIGATION(g_body_used == &P.zombie && g_bsplits == 1 && g_bsplit_dst == &P.zombie && g_bsplit_src == &LB,
+            "C06.lazy_split: otherwise the right child works on ONE fresh body split off the left body, constructed in its own parent's zombie space (so that it is joined back into exactly the body it was split from)");
+    } else OBLIGATION(g_body_used == g_body0 && g_bsplits == 0, "C06.lazy_split: a left child (or the root) keeps its body and never constructs a zombie");
+    if (nondet_bool()) T.my_parent = &P2;                       /* offer_work() may hang this task under a new tree node */
+    g_parent_at_exit = T.my_parent;
+}
+static void STUB_task_dtor(struct start_reduce *t) { g_dtor++; g_pool0 = t->my_allocator.pool; t->my_parent = NULL; t->my_body = NULL; t->my_allocator.pool = NULL; }   /* the task object is dead: its fields are poisoned */
+static void STUB_fold_tree(node *parent, const execution_data *ed) {
+    g_folds++;
+    OBLIGATION(parent == g_parent_at_exit && parent != NULL, "C06.finalize: completion is reported to the node this task hangs under NOW (read before the task is destroyed)");
+    if (g_pexec) {
+        OBLIGATION(g_body_used != &P.zombie || P.has_right_zombie, "C06.lazy_split: a body split into the zombie space is marked present before completion is reported, so that the join merges it (left.join(zombie))");
+        OBLIGATION(!(g_is_right0 && P.has_right_zombie) || (g_bsplits == 1 && g_body_used == &P.zombie), "C06.lazy_split: has_right_zombie is set only if a body was really constructed there and used");
+        OBLIGATION(g_is_right0 || P.has_right_zombie == g_zombie_flag0, "C06.lazy_split: a left child never touches its parent's zombie flag (it belongs to the right sibling)");
+    }
+}
+static void STUB_deallocate(small_object_allocator *a, struct start_reduce *t, const execution_data *ed) { g_deallocs++; OBLIGATION(t == &T && a->pool == g_pool0 && g_dtor == 1, "C06.finalize: the task is freed once, after its destruction, with the allocator it was created from"); }
+static void Partition_spawn_task(Partition *p, struct start_reduce *t, task_group_context *c) {
+    g_spawns++;
+    OBLIGATION(t == &g_new_task && p == &g_new_task.my_partition && c == &g_ctx, "C06.offer_work: the task spawned is the new right child, in the context of the running task");
+    OBLIGATION(g_node_allocs == 1 && t->my_parent == &g_new_node && g_new_node.m_ref_count == 2 && g_new_node.left_body == &LB && !g_new_node.has_right_zombie && t->is_right_child && t->my_body == &LB,
+               "C06.offer_work: when the right child becomes visible to thieves it already hangs under the new join node (count 2, left body = the splitting task's body, no zombie yet), is marked as right child and provisionally points at the left body");
+}
+struct start_reduce *g_ew_task; void *g_ew_c1, *g_ew_c2, *g_ew_w;
+#define EXECUTE_AND_WAIT(t, c1, w, c2) do { g_waits++; g_ew_task = &(t); g_ew_c1 = &(c1); g_ew_w = &(w); g_ew_c2 = &(c2); \
+    OBLIGATION(g_ew_task == &g_new_task && g_ew_task->my_body == &g_body && g_ew_task->my_range.id == g_r.id && g_rcopies == 1 && g_rcopy_src == &g_r && !g_ew_task->is_right_child, "C06.run: the root task covers the caller's whole range and reduces into the caller's body; it is not a right child"); \
+    OBLIGATION(g_ew_task->my_parent != NULL && g_ew_task->my_parent->my_parent == NULL && g_ew_task->my_parent->m_ref_count == 1 && g_ew_w == (void *)&g_ew_task->my_parent->m_wait && g_ew_task->my_parent->m_wait.refs == 1, \
+               "C06.run: the root task hangs under a wait node (no parent, count 1) and the caller waits on that node's wait_context"); \
+    OBLIGATION(g_ew_c1 == (void *)&g_ctx && g_ew_c2 == (void *)&g_ctx, "C06.run: the reduction runs and is waited for in the caller's context"); } while (0)
+void *g_r4_range, *g_r4_body, *g_r4_part; task_group_context *g_r4_ctx; int g_r4_traits;
+#define RUN4(r, b, p, c) do { g_run4s++; g_r4_range = (void *)&(r); g_r4_body = &(b); g_r4_part = &(p); g_r4_ctx = &(c); g_r4_traits = (c).traits; } while (0)
+#include "reduce.inc"
+static void reset_ghost(void) { g_rcopies = g_rsplits = g_bsplits = g_bjoins = g_psplits = g_loads = g_pexec = g_dtor = g_folds = g_deallocs = g_spawns = g_waits = g_run4s = g_task_allocs = g_node_allocs = 0; g_left_done = g_left_done_when_read = false; g_body_used = NULL; }
+static void mk_task(void) {    /* an arbitrary task that is about to run: the root, a left child, or a right child created by offer_work_impl (post-state of that function) */
+    reset_ghost();
+    g_is_right0 = T.is_right_child = nondet_bool(); T.my_parent = &P; T.my_allocator.pool = nondet_ptr(); T.my_range.id = nondet_size_t(); g_ctx.cancelled = nondet_bool();
+    P.my_parent = nondet_bool() ? &P2 : NULL; P2.my_parent = NULL; P2.m_ref_count = 1;
+    if (g_is_right0) { T.my_body = &LB; P.left_body = &LB; P.has_right_zombie = false; g_left_done = nondet_bool(); P.m_ref_count = g_left_done ? 1 : 2; }
+    else { T.my_body = nondet_bool() ? &LB : &OB; P.left_body = T.my_body; P.has_right_zombie = nondet_bool(); P.m_ref_count = nondet_bool() ? 1 : 2; }
+    g_body0 = T.my_body; g_zombie_flag0 = P.has_right_zombie; g_parent_at_exit = &P;
+}
+void h_red_execute(void) {
+    mk_task(); execution_data ed; ed.context = &g_ctx;
+    task *r = start_reduce_execute(&T, &ed);
+    OBLIGATION(g_pexec == 1, "C06.execute: the task's range is processed exactly once");
+    OBLIGATION(g_folds == 1 && g_dtor == 1 && g_deallocs == 1, "C06.execute: the finished task reports completion to its parent exactly once (one fold_tree per task) and is destroyed and freed once");
+    OBLIGATION(r == NULL, "C06.execute: no task is returned for bypass");
+    VACUITY_END();
+}
+void h_red_cancel(void) {
+    mk_task(); execution_data ed; ed.context = &g_ctx;
+    task *r = start_reduce_cancel(&T, &ed);
+    OBLIGATION(g_pexec == 0 && g_bsplits == 0 && g_body0 == g_body0, "C06.cancel: a cancelled task processes nothing and splits no body");
+    OBLIGATION(g_folds == 1 && g_dtor == 1 && g_deallocs == 1 && r == NULL, "C06.cancel: a cancelled task still reports completion to its parent exactly once (the count must reach 0 for the join/wait to be released)");
+    VACUITY_END();
+}
+static void offer_post(bool demand, Range *r) {
+    struct start_reduce *R = &g_new_task; node *NN = &g_new_node;
+    OBLIGATION(g_task_allocs == 1 && g_node_allocs == 1 && g_spawns == 1, "C06.offer_work: one right child and one join node are created, and exactly the right child is spawned");
+    OBLIGATION(NN->my_parent == &P && NN->m_ref_count == 2 && NN->left_body == &LB && !NN->has_right_zombie, "C06.offer_work: the new join node takes this task's place under the old parent, counts two children, remembers the LEFT body and holds no zombie yet");
+    OBLIGATION(T.my_parent == NN && R->my_parent == NN, "C06.offer_work: both children hang under the new join node");
+    OBLIGATION(T.my_body == &LB && R->my_body == &LB && R->is_right_child && g_bsplits == 0, "C06.offer_work: the left child keeps its body; the right child is marked as right child and only borrows the left body pointer - no body is split here (lazy split: decided in execute)");
+    if (!demand) OBLIGATION(g_rsplits == 1 && g_rsplit_dst == &R->my_range && g_rsplit_src == &T.my_range && g_rcopies == 0, "C06.offer_work: the right child's range is the part split off this task's own range; this task keeps the left part (each element stays in exactly one of the two)");
+    else OBLIGATION(g_rcopies == 1 && g_rcopy_dst == &R->my_range && g_rcopy_src == r && g_rsplits == 0, "C06.offer_work: the right child gets exactly the range handed over by the range pool");
+    OBLIGATION(P.m_ref_count == 2 && P.left_body == &OB, "C06.offer_work: the old parent is not touched (the new node inherits this task's reference)");
+}
+static void mk_splitter(void) { reset_ghost(); T.is_right_child = nondet_bool(); T.my_parent = &P; T.my_body = &LB; T.my_range.id = nondet_size_t(); P.m_ref_count = 2; P.left_body = &OB; P.my_parent = NULL; g_is_right0 = false; }
+void h_red_offer_split(void) {
+    mk_splitter(); execution_data ed; ed.context = &g_ctx; split_type so;
+    start_reduce_offer_work_impl_split(&T, &ed, &T, &so);
+    offer_post(false, NULL);
+    VACUITY_END();
+}
+void h_red_offer_demand(void) {
+    mk_splitter(); execution_data ed; ed.context = &g_ctx; Range r; r.id = nondet_size_t(); depth_t d = nondet_uchar();
+    start_reduce_offer_work_impl_demand(&T, &ed, &T, &r, d);
+    offer_post(true, &r);
+    OBLIGATION(g_new_task.my_range.id == r.id, "C06.offer_work: the handed-over range is copied unchanged");
+    VACUITY_END();
+}
+void h_red_run4(void) {
+    reset_ghost(); g_r.id = nondet_size_t(); g_ctx.cancelled = nondet_bool();
+    start_reduce_run4(&g_r, &g_body, &g_partitioner, &g_ctx);
+    OBLIGATION(g_r.id == 0 ? (g_waits == 0 && g_task_allocs == 0) : (g_waits == 1 && g_task_allocs == 1), "C06.run: an empty range starts nothing (the body is left untouched); otherwise exactly one root task is run and waited for");
+    VACUITY_END();
+}
+void h_red_run3(void) {
+    reset_ghost(); g_r.id = nondet_size_t();
+    start_reduce_run3(&g_r, &g_body, &g_partitioner);
+    OBLIGATION(g_run4s == 1 && g_r4_range == (void *)&g_r && g_r4_body == (void *)&g_body && g_r4_part == (void *)&g_partitioner && g_r4_ctx != NULL && g_r4_traits == PARALLEL_REDUCE,
+               "C06.run: without a context the same range, body and partitioner are run once in a fresh bound context");
+    VACUITY_END();
+}
+void h_red_join(void) {
+    reset_ghost(); node n; n.left_body = &LB; n.has_right_zombie = nondet_bool(); g_ctx.cancelled = nondet_bool();
+    reduction_tree_node_join(&n, &g_ctx);
+    if (n.has_right_zombie && !g_ctx.cancelled) OBLIGATION(g_bjoins == 1 && g_bjoin_dst == &LB && g_bjoin_src == &n.zombie, "C06.join: the zombie (right) body is merged INTO the left body - left.join(right), never the other way round - exactly once");
+    else OBLIGATION(g_bjoins == 0, "C06.join: nothing is joined when no right body was ever constructed (the zombie space is raw memory) or when the group is cancelled");
+    VACUITY_END();
+}
+#endif /* REDUCE */
+
+#ifdef DETRED
+/* parallel_reduce.h: struct start_deterministic_reduce and deterministic_reduction_tree_node: the body is split EAGERLY when the join node is built; nothing in these
+   functions may consult a reference count or a stolen flag (any atomic operation on them is an obligation failure): the split/join tree is a function of range and partition only. */
+struct start_deterministic_reduce { Range my_range; Body *my_body; node *my_parent; Partition my_partition; small_object_allocator my_allocator; };
+#define INIT_my_body_1(s, e) ((s)->my_body = &(e))                /* reference member bound to e */
+static struct start_deterministic_reduce g_new_task; static node g_new_node; int g_task_allocs, g_node_allocs;
+static struct start_deterministic_reduce *alloc_task(small_object_allocator *a) { g_task_allocs++; return &g_new_task; }
+static node *alloc_node(small_object_allocator *a) { g_node_allocs++; return &g_new_node; }
+void start_deterministic_reduce_ctor_root(struct start_deterministic_reduce *self, const Range *range, Partitioner *partitioner, Body *body, small_object_allocator *alloc);
+void start_deterministic_reduce_ctor_split(struct start_deterministic_reduce *self, struct start_deterministic_reduce *parent_, split_type *split_obj, Body *body, small_object_allocator *alloc);
+void deterministic_reduction_tree_node_ctor(struct node *self, struct node *parent, int ref_count, Body *input_left_body, small_object_allocator *alloc);
+#define NEW_start_deterministic_reduce_root(a, r, p, b, a2) ({ struct start_deterministic_reduce *t_ = alloc_task(&(a)); start_deterministic_reduce_ctor_root(t_, &(r), &(p), &(b), &(a2)); t_; })
+#define NEW_start_deterministic_reduce_split(a, ed, par, so, b, a2) ({ struct start_deterministic_reduce *t_ = alloc_task(&(a)); start_deterministic_reduce_ctor_split(t_, &(par), &(so), &(b), &(a2)); t_; })
+#define NEW_det_tree_node(a, ed, parent, rc, lb, a2) ({ node *n_ = alloc_node(&(a)); deterministic_reduction_tree_node_ctor(n_, (parent), (rc), &(lb), &(a2)); n_; })
+static struct start_deterministic_reduce T; static node P, P2; static Body LB; static Range g_r; static Body g_body; static Partitioner g_partitioner; static task_group_context g_ctx;
+int g_pexec, g_dtor, g_folds, g_deallocs, g_spawns, g_waits, g_run4s, g_atomic; Body *g_body0, *g_body_used; node *g_parent_at_exit; void *g_pool0;
+#define SCHEDULE_DEPENDENT(x) ({ g_atomic++; OBLIGATION(0, "C06.deterministic: parallel_deterministic_reduce never consults a reference count or a stolen flag: where bodies are split and joined depends on range and partition only, never on the schedule"); (x); })
+#define ATOMIC_LOAD_AT(site, x) SCHEDULE_DEPENDENT(x)
+#define ATOMIC_LOAD(x) SCHEDULE_DEPENDENT(x)
+static bool Partition_check_being_stolen(Partition *p, struct start_deterministic_reduce *t, execution_data *ed) { return nondet_bool(); }
+static void Partition_execute(Partition *p, struct start_deterministic_reduce *t, Range *r, execution_data *ed) {
+    OBLIGATION(t == &T && r == &T.my_range && p == &T.my_partition, "C06.execute: the partitioner works on this task and this task's own range");
+    g_pexec++; g_body_used = T.my_body;
+    OBLIGATION(g_body_used == g_body0 && g_bsplits == 0, "C06.deterministic: a task works on the body it was created with - execute() never splits or swaps bodies (the split happened when the join node was built)");
+    if (nondet_bool()) T.my_parent = &P2;
+    g_parent_at_exit = T.my_parent;
+}
+static void STUB_task_dtor(struct start_deterministic_reduce *t) { g_dtor++; g_pool0 = t->my_allocator.pool; t->my_parent = NULL; t->my_body = NULL; t->my_allocator.pool = NULL; }
+static void STUB_fold_tree(node *parent, const execution_data *ed) { g_folds++; OBLIGATION(parent == g_parent_at_exit && parent != NULL, "C06.finalize: completion is reported to the node this task hangs under NOW (read before the task is destroyed)"); }
+static void STUB_deallocate(small_object_allocator *a, struct start_deterministic_reduce *t, const execution_data *ed) { g_deallocs++; OBLIGATION(t == &T && a->pool == g_pool0 && g_dtor == 1, "C06.finalize: the task is freed once, after its destruction, with the allocator it was created from"); }
+static void Partition_spawn_task(Partition *p, struct start_deterministic_reduce *t, task_group_context *c) {
+    g_spawns++;
+    OBLIGATION(t == &g_new_task && p == &g_new_task.my_partition && c == &g_ctx, "C06.offer_work: the task spawned is the new right child, in the context of the running task");
+    OBLIGATION(g_node_allocs == 1 && t->my_parent == &g_new_node && g_new_node.m_ref_count == 2 && g_new_node.left_body == &LB && t->my_body == &g_new_node.right_body && g_bsplits == 1,
+               "C06.offer_work: when the right child becomes visible to thieves it already hangs under the new join node (count 2, left body = the splitting task's body) and owns the node's freshly split right body");
+}
+struct start_deterministic_reduce *g_ew_task; void *g_ew_c1, *g_ew_c2, *g_ew_w;
+#define EXECUTE_AND_WAIT(t, c1, w, c2) do { g_waits++; g_ew_task = &(t); g_ew_c1 = &(c1); g_ew_w = &(w); g_ew_c2 = &(c2); \
+    OBLIGATION(g_ew_task == &g_new_task && g_ew_task->my_body == &g_body && g_ew_task->my_range.id == g_r.id && g_rcopies == 1 && g_rcopy_src == &g_r, "C06.run: the root task covers the caller's whole range and reduces into the caller's body"); \
+    OBLIGATION(g_ew_task->my_parent != NULL && g_ew_task->my_parent->my_parent == NULL && g_ew_task->my_parent->m_ref_count == 1 && g_ew_w == (void *)&g_ew_task->my_parent->m_wait && g_ew_task->my_parent->m_wait.refs == 1, \
+               "C06.run: the root task hangs under a wait node (no parent, count 1) and the caller waits on that node's wait_context"); \
+    OBLIGATION(g_ew_c1 == (void *)&g_ctx && g_ew_c2 == (void *)&g_ctx, "C06.run: the reduction runs and is waited for in the caller's context"); } while (0)
+void *g_r4_range, *g_r4_body, *g_r4_part; task_group_context *g_r4_ctx; int g_r4_traits;
+#define RUN4(r, b, p, c) do { g_run4s++; g_r4_range = (void *)&(r); g_r4_body = &(b); g_r4_part = &(p); g_r4_ctx = &(c); g_r4_traits = (c).traits; } while (0)
+#include "detred.inc"
+static void reset_ghost(void) { g_rcopies = g_rsplits = g_bsplits = g_bjoins = g_psplits = g_pexec = g_dtor = g_folds = g_deallocs = g_spawns = g_waits = g_run4s = g_task_allocs = g_node_allocs = g_atomic = 0; g_body_used = NULL; }
+static void mk_task(void) {
+    reset_ghost(); T.my_parent = &P; T.my_allocator.pool = nondet_ptr(); T.my_range.id = nondet_size_t(); T.my_body = nondet_bool() ? &LB : &P.right_body; g_ctx.cancelled = nondet_bool();
+    P.my_parent = nondet_bool() ? &P2 : NULL; P.m_ref_count = nondet_bool() ? 1 : 2; P.left_body = &LB; P2.my_parent = NULL; P2.m_ref_count = 1;
+    g_body0 = T.my_body; g_parent_at_exit = &P;
+}
+void h_det_execute(void) {
+    mk_task(); execution_data ed; ed.context = &g_ctx;
+    task *r = start_deterministic_reduce_execute(&T, &ed);
+    OBLIGATION(g_pexec == 1, "C06.execute: the task's range is processed exactly once");
+    OBLIGATION(g_folds == 1 && g_dtor == 1 && g_deallocs == 1 && r == NULL, "C06.execute: the finished task reports completion to its parent exactly once (one fold_tree per task) and is destroyed and freed once");
+    OBLIGATION(g_atomic == 0, "C06.deterministic: no schedule-dependent state was read");
+    VACUITY_END();
+}
+void h_det_cancel(void) {
+    mk_task(); execution_data ed; ed.context = &g_ctx;
+    task *r = start_deterministic_reduce_cancel(&T, &ed);
+    OBLIGATION(g_pexec == 0 && g_bsplits == 0, "C06.cancel: a cancelled task processes nothing and splits no body");
+    OBLIGATION(g_folds == 1 && g_dtor == 1 && g_deallocs == 1 && r == NULL, "C06.cancel: a cancelled task still reports completion to its parent exactly once");
+    VACUITY_END();
+}
+void h_det_offer(void) {
+    reset_ghost(); T.my_parent = &P; T.my_body = &LB; T.my_range.id = nondet_size_t(); P.m_ref_count = nondet_bool() ? 1 : 2; P.my_parent = NULL; P.m_child_stolen = nondet_bool(); int rc0 = P.m_ref_count;
+    execution_data ed; ed.context = &g_ctx; split_type so;
+    start_deterministic_reduce_offer_work_impl(&T, &ed, &T, &so);
+    struct start_deterministic_reduce *R = &g_new_task; node *NN = &g_new_node;
+    OBLIGATION(g_task_allocs == 1 && g_node_allocs == 1 && g_spawns == 1, "C06.offer_work: one right child and one join node are created, and exactly the right child is spawned");
+    OBLIGATION(NN->my_parent == &P && NN->m_ref_count == 2 && NN->left_body == &LB, "C06.offer_work: the new join node takes this task's place under the old parent, counts two children and remembers the LEFT body");
+    OBLIGATION(g_bsplits == 1 && g_bsplit_dst == &NN->right_body && g_bsplit_src == &LB, "C06.deterministic: the body is split eagerly, exactly once per range split: the node's right body is split off the splitting task's body - whatever the schedule");
+    OBLIGATION(T.my_body == &LB && R->my_body == &NN->right_body, "C06.deterministic: the left child keeps its body, the right child works on the new node's right body (joined back into exactly the body it was split from)");
+    OBLIGATION(T.my_parent == NN && R->my_parent == NN, "C06.offer_work: both children hang under the new join node");
+    OBLIGATION(g_rsplits == 1 && g_rsplit_dst == &R->my_range && g_rsplit_src == &T.my_range && g_rcopies == 0, "C06.offer_work: the right child's range is the part split off this task's own range; this task keeps the left part");
+    OBLIGATION(g_atomic == 0 && P.m_ref_count == rc0, "C06.deterministic: no reference count or stolen flag is consulted or changed when splitting");
+    VACUITY_END();
+}
+void h_det_run4(void) {
+    reset_ghost(); g_r.id = nondet_size_t(); g_ctx.cancelled = nondet_bool();
+    start_deterministic_reduce_run4(&g_r, &g_body, &g_partitioner, &g_ctx);
+    OBLIGATION(g_r.id == 0 ? (g_waits == 0 && g_task_allocs == 0) : (g_waits == 1 && g_task_allocs == 1), "C06.run: an empty range starts nothing (the body is left untouched); otherwise exactly one root task is run and waited for");
+    OBLIGATION(g_bsplits == 0, "C06.run: the root works on the caller's body itself");
+    VACUITY_END();
+}
+void h_det_run3(void) {
+    reset_ghost(); g_r.id = nondet_size_t();
+    start_deterministic_reduce_run3(&g_r, &g_body, &g_partitioner);
+    OBLIGATION(g_run4s == 1 && g_r4_range == (void *)&g_r && g_r4_body == (void *)&g_body && g_r4_part == (void *)&g_partitioner && g_r4_ctx != NULL && g_r4_traits == PARALLEL_REDUCE,
+               "C06.run: without a context the same range, body and partitioner are run once in a fresh bound context");
+    VACUITY_END();
+}
+void h_det_join(void) {
+    reset_ghost(); node n; n.left_body = &LB; g_ctx.cancelled = nondet_bool();
+    deterministic_reduction_tree_node_join(&n, &g_ctx);
+    if (!g_ctx.cancelled) OBLIGATION(g_bjoins == 1 && g_bjoin_dst == &LB && g_bjoin_src == &n.right_body, "C06.join: the node's right body is merged INTO the left body - left.join(right), never the other way round - exactly once");
+    else OBLIGATION(g_bjoins == 0, "C06.join: nothing is joined when the group is cancelled");
+    VACUITY_END();
+}
+#endif /* DETRED */
+
+#ifdef LAMBDA
+/* parallel_reduce.h lambda_reduce_body: the adaptor behind the functional overloads.  Values are symbolic tokens (free-monoid view): the user's functions are stubs that
+   record their operands IN ORDER and return a fresh token, so an operand swap or a lost/duplicated operand shows up as a different record. */
+typedef long Value; typedef struct Range { int d; } Range; typedef struct RealBody { int d; } RealBody; typedef struct Reduction { int d; } Reduction;
+struct lambda_reduce_body { const Value *my_identity_element; const RealBody *my_real_body; const Reduction *my_reduction; Value my_value; };
+#define INIT_my_identity_element_1(s, e) ((s)->my_identity_element = &(e))
+#define INIT_my_real_body_1(s, e) ((s)->my_real_body = &(e))
+#define INIT_my_reduction_1(s, e) ((s)->my_reduction = &(e))
+#define INIT_my_value_1(s, e) ((s)->my_value = (e))
+#define MOVE(x) (x)
+static RealBody g_rb; static Reduction g_red; static Value g_identity; int g_calls; const void *g_f; const void *g_arg1; Value g_op1, g_op2, g_out;
+static Value invoke_(const void *f, const void *a, const void *b) {
+    g_calls++; g_f = f; g_out = nondet_long();
+    if (f == (const void *)&g_rb) { g_arg1 = a; g_op2 = *(const Value *)b; }           /* real_body(range, running value) */
+    else { g_op1 = *(const Value *)a; g_op2 = *(const Value *)b; }                       /* reduction(left, right) */
+    return g_out;
+}
+#define INVOKE(f, a, b) invoke_(&(f), &(a), &(b))
+#include "lambda.inc"
+static void mk_body(struct lambda_reduce_body *b) { b->my_identity_element = &g_identity; b->my_real_body = &g_rb; b->my_reduction = &g_red; b->my_value = nondet_long(); }
+void h_lambda_join(void) {
+    struct lambda_reduce_body l, r; mk_body(&l); mk_body(&r); Value lv = l.my_value, rv = r.my_value; g_calls = 0;
+    lambda_reduce_body_join(&l, &r);
+    OBLIGATION(g_calls == 1 && g_f == (const void *)&g_red && g_op1 == lv && g_op2 == rv, "C06.lambda.join: the reduction is applied once to (this body's value, the joined body's value) in THAT order - operands are never swapped, so a non-commutative reduction gives the sequential result");
+    OBLIGATION(l.my_value == g_out, "C06.lambda.join: the result replaces this (left) body's value");
+    VACUITY_END();
+}
+void h_lambda_call(void) {
+    struct lambda_reduce_body l; mk_body(&l); Value v0 = l.my_value; Range rg; g_calls = 0;
+    lambda_reduce_body_call(&l, &rg);
+    OBLIGATION(g_calls == 1 && g_f == (const void *)&g_rb && g_arg1 == (const void *)&rg && g_op2 == v0, "C06.lambda.call: the range function is applied once to the subrange and the RUNNING value (accumulation continues from what the body already holds: nothing is dropped)");
+    OBLIGATION(l.my_value == g_out, "C06.lambda.call: its result becomes the body's value");
+    VACUITY_END();
+}
+void h_lambda_ctors(void) {
+    struct lambda_reduce_body a, b; g_identity = nondet_long(); g_calls = 0;
+    lambda_reduce_body_ctor(&a, &g_identity, &g_rb, &g_red);
+    OBLIGATION(a.my_value == g_identity && a.my_identity_element == &g_identity && a.my_real_body == &g_rb && a.my_reduction == &g_red, "C06.lambda.ctor: a new body starts from the identity and refers to the caller's identity, range function and reduction");
+    a.my_value = nondet_long();
+    lambda_reduce_body_split_ctor(&b, &a);
+    OBLIGATION(b.my_value == g_identity, "C06.lambda.split: a split-off body starts from the IDENTITY, not from a copy of the running value (otherwise the left operands would contribute twice)");
+    OBLIGATION(b.my_identity_element == &g_identity && b.my_real_body == &g_rb && b.my_reduction == &g_red && g_calls == 0, "C06.lambda.split: it shares identity, range function and reduction with the body it was split from");
+    VACUITY_END();
+}
+#endif /* LAMBDA */
+
+#ifdef SPLIT
+/* parallel_sort.h quick_sort_range: pseudo_median_of_nine + split_range + the splitting constructor, for ranges of ANY size (loop contracts on the three partition loops).
+   Universal facts are stated for one arbitrary position g_q (ghost index); "the result is a permutation" is stated for one arbitrary element that is tracked through
+   every exchange (g_pos: where the element that started at IN_k0 is now) - every write to the array goes through ITER_SWAP. Comparator: std::less<int>. */
+typedef int *RandomAccessIterator;
+struct quick_sort_range { const void *comp; size_t size; RandomAccessIterator begin; };
+#define INIT_comp_1(s, e) ((s)->comp = (e))
+#define INIT_size_1(s, e) ((s)->size = (e))
+#define INIT_begin_1(s, e) ((s)->begin = (e))
+#define NMAX ((size_t)1 << 12)
+static int *A; static size_t g_n, g_q, g_pos; static int g_v0;
+static bool COMP_AT(int *x, int *y) {
+    OBLIGATION(__CPROVER_same_object(x, A) && __CPROVER_same_object(y, A) && x >= A && x < A + g_n && y >= A && y < A + g_n, "C06.split: every compared position lies inside the range being split");
+    return *x < *y;
+}
+static void ITER_SWAP(int *x, int *y) {
+    OBLIGATION(__CPROVER_same_object(x, A) && __CPROVER_same_object(y, A) && x >= A && x < A + g_n && y >= A && y < A + g_n, "C06.split: elements are exchanged only inside the range being split");
+    int t = *x; *x = *y; *y = t;
+    if (x == A + g_pos) g_pos = (size_t)(y - A); else if (y == A + g_pos) g_pos = (size_t)(x - A);
+}
+#define LE_KEY(k) (!(A[0] < A[k]))        /* not greater than the pivot (which sits at the front while the loops run) */
+#define GE_KEY(k) (!(A[k] < A[0]))        /* not less than the pivot */
+#define COMMON_INV (j <= g_n && g_pos < g_n && A[g_pos] == g_v0 && (i == 0 || LE_KEY(i)) && (!(1 <= g_q && g_q <= i) || LE_KEY(g_q)))
+#define LOOP_split_1 __CPROVER_assigns(i, j, g_pos, __CPROVER_object_whole(A)) \
+    __CPROVER_loop_invariant(i < j && COMMON_INV && (!(j <= g_q && g_q < g_n) || GE_KEY(g_q))) __CPROVER_decreases(j - i)
+#define LOOP_split_2 __CPROVER_assigns(j) \
+    __CPROVER_loop_invariant(i < j && COMMON_INV && (!(j <= g_q && g_q < g_n) || GE_KEY(g_q))) __CPROVER_decreases(j)
+#define LOOP_split_3 __CPROVER_assigns(i) \
+    __CPROVER_loop_invariant(i <= j && COMMON_INV && (!(j < g_q && g_q < g_n) || GE_KEY(g_q)) && LE_KEY(j)) __CPROVER_decreases(j - i)
+#include "split_range.inc"
+size_t IN_n, IN_q, IN_k0;
+void h_split(void) {
+    g_n = IN_n = nondet_size_t(); __CPROVER_assume(g_n >= 1 && g_n <= NMAX);
+    A = malloc(g_n * sizeof(int)); __CPROVER_assume(A != NULL);
+    g_q = IN_q = nondet_size_t(); __CPROVER_assume(g_q < g_n);
+    size_t k0 = IN_k0 = nondet_size_t(); __CPROVER_assume(k0 < g_n); g_pos = k0; g_v0 = A[k0];
+    int cmp; struct quick_sort_range left, right; left.comp = &cmp; left.size = g_n; left.begin = A;
+    quick_sort_range_split_ctor(&right, &left);
+    size_t j = left.size;
+    OBLIGATION(left.begin == A && j < g_n && right.begin == A + j + 1 && right.size == g_n - j - 1 && right.comp == &cmp,
+               "C06.split: the two subranges are [begin, begin+j) and [begin+j+1, end): together with the pivot position j they tile the old range - every element is in exactly one of the three");
+    OBLIGATION(g_q >= j || !(A[j] < A[g_q]), "C06.split: no element of the left subrange is greater than the pivot");
+    OBLIGATION(g_q <= j || !(A[g_q] < A[j]), "C06.split: no element of the right subrange is less than the pivot");
+    OBLIGATION(g_pos < g_n && A[g_pos] == g_v0, "C06.split: the result is a permutation of the input: an arbitrary element, tracked through every exchange, is still in the range (all writes are exchanges of two in-range positions)");
+    VACUITY_END();
+}
+#endif /* SPLIT */
